@@ -18,6 +18,7 @@ import (
 	"errors"
 	"math/rand"
 	"os"
+	"reflect"
 	goruntime "runtime"
 	"sort"
 	"strconv"
@@ -162,14 +163,26 @@ func (r *vlRun) poolsOf(layout string) *config.Pools {
 // onCounters is the allocator's countersChangedCallback: called by the handler goroutine right
 // after it rewrote the counters of `pool`.
 func (r *vlRun) onCounters(pool string) {
-	c := r.c.ips.CountersForPool(pool)
+	v := vlCountersNoLock(r.c.ips, pool)
 	t := r.clk.Tick()
 	if rec := r.cur.Load(); rec != nil {
-		rec.cbs = append(rec.cbs, vlCb{T: t, What: "ctr", Key: pool, Val: vlCtr(c)})
+		rec.cbs = append(rec.cbs, vlCb{T: t, What: "ctr", Key: pool, Val: v})
 	}
 	if r.evCh != nil {
 		r.evCh <- pool
 	}
+}
+
+// vlCountersNoLock reads the counters of one pool without taking countersMutex: the caller is the
+// handler goroutine, the only writer, so the read needs no lock, and the callback must not depend
+// on which locks the allocator holds while it notifies (reflection: the map is unexported).
+func vlCountersNoLock(a *allocator.Allocator, pool string) [4]int64 {
+	v := reflect.ValueOf(a).Elem().FieldByName("poolToCounters").MapIndex(reflect.ValueOf(pool))
+	if !v.IsValid() {
+		return [4]int64{}
+	}
+	return [4]int64{v.FieldByName("AssignedIPv4").Int(), v.FieldByName("AssignedIPv6").Int(),
+		v.FieldByName("AvailableIPv4").Int(), v.FieldByName("AvailableIPv6").Int()}
 }
 
 func vlCtr(c allocator.PoolCounters) [4]int64 {
